@@ -174,4 +174,20 @@ theorem scaled_literal_exact (minus ip fr ex : Bytes) (hm : minus = [] ∨ minus
   rw [hp] at this
   simpa using this
 
+/-- a lexeme with a fraction or an exponent is not an integer lexeme: the decoder hands it to `atof` whatever its length -/
+theorem isIntLex_false (pre fr ex : Bytes) (hf : Frac fr) (hx : Exp ex) (h : fr ≠ [] ∨ ex ≠ []) :
+    isIntLex (pre ++ fr ++ ex) = false := by
+  have key : ∃ c, c ∈ pre ++ fr ++ ex ∧ (c = 46 ∨ c = 101 ∨ c = 69) := by
+    cases hf with
+    | some d ds _ _ => exact ⟨46, by simp, Or.inl rfl⟩
+    | none =>
+      cases hx with
+      | none => simp at h
+      | some e sgn d ds he _ _ _ => exact ⟨e, by simp, Or.inr he⟩
+  obtain ⟨c, hc, hv⟩ := key
+  unfold isIntLex
+  rw [List.all_eq_false]
+  refine ⟨c, hc, ?_⟩
+  rcases hv with rfl | rfl | rfl <;> decide
+
 end AslProofs.Num
